@@ -107,6 +107,36 @@ def r09_2(ctx):
            'w.index = %s' % P)
 
 
+def r09_9(ctx):
+    ctx.rule('R09.9', 'the reaper removes exactly the workers that exited: it deletes by position only while walking '
+                      'the list backwards (a deletion shifts every later position), or removes by identity', floor=1)
+    m = ctx.model
+    je = m.func('pool:Pool._join_exited_workers')
+    cfg = je.cfg
+    dels = [n for n in cfg.where(lambda n: n.kind == 'stmt' and isinstance(n.ast, ast.Delete) and
+                                 any(isinstance(t, ast.Subscript) and je.canon(t.value) == 'self._pool'
+                                     for t in n.ast.targets))]
+    by_value = [n for (n, c) in q.calls(je, 'self._pool.remove')]
+    q.need(dels or by_value, '_join_exited_workers removes nobody from the worker list')
+    for d in dels:
+        loops = [lp for lp in cfg.where(lambda x: x.kind == 'for') if q.inside(je, d, lp.stmt.body)]
+        ok = False
+        why = 'deletion by position outside a loop'
+        if loops:
+            it = ast.unparse(loops[-1].stmt.iter).replace(' ', '')
+            idx = [ast.unparse(t.slice) for t in d.ast.targets if isinstance(t, ast.Subscript)][0]
+            tgt = ast.unparse(loops[-1].stmt.target)
+            backwards = it.startswith('reversed(range(len(self._pool)))') or it.startswith('range(len(self._pool)-1,-1,-1)')
+            ok = backwards and idx == tgt
+            why = 'for %s in %s: ... del self._pool[%s]' % (tgt, ast.unparse(loops[-1].stmt.iter), idx)
+        ctx.ob('R09.9', 'reaper:positional-delete-only-walking-backwards', ok, je, d,
+               why if ok else
+               '%s -- after the first deletion of a pass the positions are shifted: the next exited worker stays in '
+               'the list and a live neighbour is dropped from supervision' % why)
+    for n in by_value:
+        ctx.ob('R09.9', 'reaper:removes-by-identity', True, je, n, 'self._pool.remove(worker)')
+
+
 def r09_7(ctx):
     ctx.rule('R09.7', 'workers are started from one place: the refill is called only by the supervision tick, the fork '
                       'only by the refill and the constructor -- "how many are missing / which slot is free" is '
@@ -235,6 +265,12 @@ def r09_5(ctx):
 def run(ctx):
     r09_1(ctx, state_recheck=False)
     r09_7(ctx)
+    r09_9(ctx)
+    # "no job is ... failed because of recycling": the only way a worker's exit fails a job is the grace-period scan
+    # of the reaper -- nobody declares a job lost on the spot, whatever the exit status
+    from .c04 import r04_5
+    from ..report import Only
+    r04_5(Only(ctx, ('caller:',), floor=1, doc='a job is declared lost only by the reaper\'s grace-period scan'))
     # "no job is ... held up because of recycling" also while the pool is closing
     from .c07 import r07_12
     r07_12(ctx, 'R09.8')
